@@ -426,6 +426,28 @@ class StmtMixin:
                 k += 1
         return None
 
+    def mentions_fresh(self, e, ctr_start):
+        """does term e mention a symbol created after counter value ctr_start (i.e. a loop-variant symbol)?"""
+        seen, todo = set(), [e]
+        while todo:
+            t = todo.pop()
+            if t.get_id() in seen:
+                continue
+            seen.add(t.get_id())
+            if z3.is_const(t) and t.decl().kind() == z3.Z3_OP_UNINTERPRETED:
+                nm = t.decl().name()
+                if "!" in nm:
+                    try:
+                        if int(nm.rsplit("!", 1)[1]) > ctr_start:
+                            return True
+                    except ValueError:
+                        pass
+                if nm.startswith("HL") or nm.startswith("GL"):
+                    return True
+            if z3.is_app(t):
+                todo.extend(t.children())
+        return False
+
     def assigned_names(self, stmts):
         names = set()
         for s in stmts:
@@ -475,9 +497,14 @@ class StmtMixin:
                 items = st1.rd("$items", r)
                 n = o.seq_len(st1, r)
 
-                def elem(s, i, items=items):
+                vt = (c.aux or {}).get("v")
+
+                def elem(s, i, items=items, vt=vt, n=n):
                     v = z3.Select(items, i)
                     s.assume(z3.Implies(w.V.is_ref(v), z3.And(w.V.r(v) > 0, w.V.r(v) <= s.alloc)))
+                    if vt and vt not in ("any", "V"):
+                        s.assume(z3.Implies(z3.And(i >= 0, i < n), self.o.is_type(v, vt)))
+                        return SV(v, vt if not vt.startswith("opt:") else None)
                     return SV(v)
                 yield st1, IterSrc(n, elem, "sequence")
             elif kind == "dict":
@@ -557,8 +584,27 @@ class StmtMixin:
                 for g in list(h.glob):
                     h.glob[g] = w.fresh(g, h.glob[g].sort())
             else:
-                for a in wheap:
-                    h.heap[a] = w.fresh("H_" + a.replace("$", "S"), h.arr(a).sort())
+                for a, idxs in wheap.items():
+                    if idxs is None:
+                        h.heap[a] = w.fresh("H_" + a.replace("$", "S"), h.arr(a).sort())
+                    elif any(isinstance(i, str) for i in idxs):
+                        # objects allocated by earlier iterations may have been written: new array that agrees
+                        # with the old one on every object that existed at loop entry (except the listed ones)
+                        oldarr = h.arr(a)
+                        newarr = w.fresh("H_" + a.replace("$", "S"), oldarr.sort())
+                        keep = [i for i in idxs if not isinstance(i, str)]
+                        a0 = st0.alloc
+
+                        def frame(r, oldarr=oldarr, newarr=newarr, keep=keep, a0=a0):
+                            return z3.Implies(z3.And(r <= a0, *[r != k for k in keep]), z3.Select(newarr, r) == z3.Select(oldarr, r))
+                        from .eval_call import Schema
+                        h.schemas = h.schemas + [Schema("ref", frame, "loop-frame")]
+                        h.heap[a] = newarr
+                    else:
+                        arr = h.arr(a)
+                        for i in idxs:
+                            arr = z3.Store(arr, i, w.fresh("E_" + a.replace("$", "S"), arr.sort().range()))
+                        h.heap[a] = arr
                 for g in wglob:
                     h.glob[g] = w.fresh(g, h.g(g).sort())
             if full or walloc:
@@ -604,6 +650,7 @@ class StmtMixin:
 
         # ---- pass 1: discover the write set under full havoc (obligations muted)
         keep_hint = {n for n in assigned if st0.locals.get(n) is not None and st0.locals[n].ty}
+        ctr_start = w._ctr
         muted, self.muted = self.muted, True
         try:
             while True:
@@ -612,7 +659,9 @@ class StmtMixin:
                 base_epoch = h1.epoch
                 base_glob = dict(h1.glob)
                 base_alloc = h1.alloc
-                ordsave = None
+                sp1 = Spec(fn_old, inv_names(h1, I), fn_names, mode="assume")
+                for lbl, inv in invs.items():
+                    h1.assume(self.spec_truth(h1, inv, cx.with_spec(sp1)))
                 outs1 = run_body(h1, False)
                 bad = set()
                 for f, out in outs1:
@@ -630,14 +679,37 @@ class StmtMixin:
                 keep_hint -= bad
         finally:
             self.muted = muted
-        wheap, wglob, walloc = set(), set(), False
+        wheap, wglob, walloc = {}, set(), False      # wheap: attr -> list of written index terms | None (whole array)
         for f, out in outs1:
             for a, arr in f.heap.items():
                 ref0 = base_heap.get(a)
                 if ref0 is None:
                     ref0 = z3.Array("H%s_%s" % (base_epoch, a.replace("$", "S_")), z3.IntSort(), arr.sort().range())
-                if not arr.eq(ref0):
-                    wheap.add(a)
+                if arr.eq(ref0):
+                    continue
+                idxs, e = [], arr
+                while z3.is_store(e):
+                    idxs.append(e.arg(1))
+                    e = e.arg(0)
+                if not e.eq(ref0):
+                    wheap[a] = None
+                elif any(self.mentions_fresh(i, ctr_start) for i in idxs):
+                    # writes at loop-variant indices: allowed if they are objects allocated inside the body
+                    var = [i for i in idxs if self.mentions_fresh(i, ctr_start)]
+                    if all(self.o.entails(f, i > base_alloc, cheap=True) for i in var) and wheap.get(a, []) is not None:
+                        cur = wheap.setdefault(a, [])
+                        if not any(isinstance(j, str) for j in cur):
+                            cur.append("fresh")
+                        for i in idxs:
+                            if i not in var and not any((not isinstance(j, str)) and i.eq(j) for j in cur):
+                                cur.append(i)
+                    else:
+                        wheap[a] = None
+                elif wheap.get(a, []) is not None:
+                    cur = wheap.setdefault(a, [])
+                    for i in idxs:
+                        if not any((not isinstance(j, str)) and i.eq(j) for j in cur):
+                            cur.append(i)
             for g, val in f.glob.items():
                 if g not in base_glob or not val.eq(base_glob[g]):
                     if g in base_glob:
